@@ -138,6 +138,37 @@ def comp_wire(comp):
     return ["tenc", wire_emap(comp["emap"]), True if one is None else bool(one)]
 
 
+def make_earlier_alive(rng, world):
+    """an earlier state of the same world in which other agents were alive: a dead and a living agent swap roles
+    (the number of living agents stays the same), or the healths are drawn anew; positions stay legal because an
+    agent that is alive in the earlier state only stands on a cell nobody else uses in it"""
+    st = copy.deepcopy(world["state"])
+    dead = [i for i, x in enumerate(st) if x["health"][0] == 0]
+    alive = [i for i, x in enumerate(st) if x["health"][0] > 0]
+    if dead and alive and rng.random() < 0.7:
+        d, a = rng.choice(dead), rng.choice(alive)
+        st[d]["health"], st[a]["health"] = [1, 2], [0, 1]
+        revived = [d]
+    else:
+        revived = []
+        for i, x in enumerate(st):
+            if rng.random() < 0.4:
+                if x["health"][0] == 0:
+                    x["health"] = [1, 2]
+                    revived.append(i)
+                else:
+                    x["health"] = [0, 1]
+    taken = {tuple(x["pos"]) for i, x in enumerate(st) if x["health"][0] > 0 and i not in revived}
+    free = [(r, c) for r in range(world["rows"]) for c in range(world["cols"]) if (r, c) not in taken]
+    rng.shuffle(free)
+    for i in revived:
+        if free:
+            st[i]["pos"] = list(free.pop())
+        else:
+            st[i]["health"] = [0, 1]
+    return st
+
+
 def build_comp(rw, comp):
     k = comp["kind"]
     kw = dict(agents=rw.agents, grid=rw.grid)
@@ -337,7 +368,9 @@ class SmartSession:
     def pending(self):
         if not hasattr(self.sim, "rewards"):
             return []
-        return [[[self.rw.idx[k], int(v)] for k, v in self.sim.rewards.items()]]
+        # an id this simulation does not have (state shared with another simulation object) is dumped as agent 999:
+        # the model never produces it, so it shows as a disagreement and a failed ledger instead of a harness error
+        return [[[self.rw.idx.get(k, 999), int(v)] for k, v in self.sim.rewards.items()]]
 
     # ---- one operation ------------------------------------------------------------------------
     def run(self, op):
@@ -716,6 +749,18 @@ class DoneProp(core.Prop):
             self._note_runtime(f"valid done component configuration rejected at construction: "
                                f"{type(ex).__name__}: {ex}", {"kind": "comp", "world": world, "comp": comp})
             return None
+        if world.get("earlier") is not None and world.get("state") is not None:
+            # a history: the same component object has already been asked about an earlier state of the same
+            # world (other agents alive, possibly as many of them); its answers depend on the current state only
+            try:
+                gridw.set_state_in_order(rw, world["earlier"])
+                for ag in rw.agent_list:
+                    outcome(lambda ag=ag: inst.get_done(ag))
+                outcome(lambda: inst.get_all_done())
+            except ValueError:
+                pass
+            gridw.set_state_in_order(rw, world["state"])
+            extra_tags = list(extra_tags) + ["after-earlier-queries"]
         outs = [outcome(lambda ag=ag: inst.get_done(ag)) for ag in rw.agent_list]
         outs.append(outcome(lambda: inst.get_all_done()))
         stat, dyn = rw.stat_wire(), rw.dyn_wire()
@@ -820,6 +865,8 @@ class DoneProp(core.Prop):
             n = len(world["agents"])
             amap2 = gen_amap(rng, n) if rng.random() < 0.5 else []
             extra = ["stale-pos"] if stale else []
+            if world.get("state") and rng.random() < 0.5:
+                world = dict(world, earlier=make_earlier_alive(rng, world))
             for comp in comps_for([amap, amap2] if amap2 != amap else [amap], [emap]):
                 c = self._comp_case(world, comp, rw, extra)
                 if c is not None:
@@ -843,10 +890,14 @@ class DoneProp(core.Prop):
             world, comp = desc["world"], desc["comp"]
             n = len(world["agents"])
             amap = comp.get("amap", [])
+            if world.get("earlier") is not None:
+                yield dict(desc, world={k: v for k, v in world.items() if k != "earlier"})
             for i in range(n - 1, -1, -1):           # drop an agent no mapping item mentions
                 if n > 1 and all(i not in (a, t) for a, t in amap):
                     w2 = copy.deepcopy(world)
                     del w2["agents"][i], w2["state"][i]
+                    if w2.get("earlier") is not None:
+                        del w2["earlier"][i]
                     ren = lambda x: x - 1 if x > i else x  # noqa: E731
                     yield dict(desc, world=w2, comp=dict(comp, amap=[[ren(a), ren(t)] for a, t in amap])
                                if "amap" in comp else comp)
